@@ -10,6 +10,13 @@ QUOTE = 'BacktestDataHandler.get_asset_latest_bid_ask_price'
 
 
 def check(ctx):
+    from .c16 import late_bound_loop_lambdas
+    for site_, names_, src_ in late_bound_loop_lambdas(ctx, {'SimulatedBroker.update', 'SimulatedBroker._execute_order'}):
+        ctx.violation('C05.S2', 'each fill is priced and costed with its own order', site_,
+                      'the deferred step `%s` reads the loop variable%s %s when it is finally called (after the loop has moved on)' % (src_[:60], 's' if len(names_) > 1 else '', ', '.join(names_)),
+                      key='C05.S2|late-binding')
+    from ..lib import discarded_results
+    ctx.sub(discarded_results, 'C05.S3', ('qstrader/broker/',), 'quotes, fee models and fills are the objects the code actually updated')
     ctx.sub(s1_s2_s3_execute)
     ctx.sub(s2_handler)
     ctx.sub(s4_fee_models)
@@ -67,13 +74,20 @@ def s1_s2_s3_execute(ctx):
         exp_price = ('sub', q, num(1 if side else 0))
         ctx.require(T.teq(f.get('price', ZERO), exp_price), 'C05.S2', '%s fills at the %s of the current quote' % ('a buy' if side else 'a sell', 'ask' if side else 'bid'),
                     cs[0].site, 'price=%s' % fmt(f.get('price', ZERO))[:160], key='C05.S2|side|%s' % ('buy' if side else 'sell'))
-        fee = [e for e in p.flat_events() if e.kind == 'call' and any(c.endswith('.calc_total_cost') for c in e.callee)]
+        from .sizers import _named_fee
+        fee = [_named_fee(e) for e in p.flat_events() if e.kind == 'call' and any(c.endswith('.calc_total_cost') or c == 'meth:calc_total_cost' for c in e.callee)]
         if not ctx.require(len(fee) == 1, 'C05.S3', 'the fee model is consulted exactly once per fill', fee[0].site if fee else fn.site(), '%d' % len(fee), key='C05.S3|fee-once'):
             continue
         fe = fee[0]
         cons = ('call', ('ext', 'ROUND'), (T.t_mul(exp_price, A(order, 'quantity')),), ())
-        ctx.require(T.teq(fe.args.get('consideration', ZERO), cons), 'C05.S3', 'consideration = round(price x quantity) to the whole currency unit', fe.site,
-                    'consideration=%s' % fmt(fe.args.get('consideration', ZERO))[:160], key='C05.S3|consideration')
+        from ..lib import unread_calls
+        got_cons = fe.args.get('consideration', ZERO)
+        if not T.teq(got_cons, cons) and [u_ for u_ in unread_calls(got_cons) if 'get_asset_latest' not in u_[1][1]]:
+            ctx.undecided('C05.S3', 'consideration = round(price x quantity) to the whole currency unit', fe.site,
+                          'computed by %s, which was not read through' % fmt(unread_calls(got_cons)[0][1])[:80])
+        else:
+            ctx.require(T.teq(got_cons, cons), 'C05.S3', 'consideration = round(price x quantity) to the whole currency unit', fe.site,
+                        'consideration=%s' % fmt(got_cons)[:160], key='C05.S3|consideration')
         ok = fe.args.get('asset') == A(order, 'asset') and fe.args.get('quantity') == A(order, 'quantity') and fe.args.get('broker') == V('self')
         ctx.require(ok, 'C05.S3', 'the fee model receives (asset, quantity, consideration, broker) in the interface\'s order', fe.site,
                     {k: fmt(v)[:50] for k, v in fe.args.items()}, key='C05.S3|fee-args')
